@@ -5,7 +5,7 @@ ARRAY_LENS = [0, 1, 2, 3, 4, 5, 7, 8, 16, 17, 32, 33, 64, 65]
 INT_PRIMS = {"u8": (0, 8), "i8": (1, 8), "u16": (0, 16), "i16": (1, 16), "u32": (0, 32), "i32": (1, 32),
              "u64": (0, 64), "i64": (1, 64), "u128": (0, 128), "i128": (1, 128)}
 CHRONO_PRIMS = ["weekday", "month", "fixedoffset", "tz", "dt_utc", "ndate", "ntime", "ndt", "dt_local", "dt_fixed", "dt_tz"]
-PRIMS = (list(INT_PRIMS) + ["f32", "f64", "bool", "unit", "char", "str", "dstr", "dur", "bytes", "uuid", "bigint"]
+PRIMS = (list(INT_PRIMS) + ["f32", "f64", "bool", "unit", "char", "str", "dstr", "dur", "bytes", "uuid", "bigint", "bigdec"]
          + CHRONO_PRIMS + ["varu32", "vari32"])
 MIN_YEAR, MAX_YEAR = -262143, 262142
 MIN_TS, MAX_TS = -8334601228800, 8210266876799
@@ -363,7 +363,48 @@ def gen_prim_value(rng, p, boundary=0.5):
         else:
             v = rng.getrandbits(rng.randrange(1, 200)) * rng.choice([1, -1])
         return "z" + str(v)
+    if p == "bigdec":
+        return gen_bigdec_value(rng)
     raise ValueError(p)
+
+
+BD_SCALES = [0, 1, 2, 5, 6, 7, 8, 15, 16, 17, 20, 21, 22, 100, -16, -17, -20, -21, -22, -100, -1000, 1000,
+             (1 << 63) - 1, (1 << 63) - 2, -(1 << 63), -(1 << 63) + 1, 1 << 40, -(1 << 40)]
+
+
+def bd_norm(i, s):
+    """the representative the decimal text determines (BigDec.bd_norm)"""
+    return (i * 10 ** (-s), 0) if -15 <= s < 0 else (i, s)
+
+
+def gen_bigdec_pair(rng, normal=True):
+    """(unscaled, scale) of a BigDecimal; every branch of the crate's formatter: plain integer, padded integer,
+    fraction with and without integer digits, exponent forms on both sides, the ends of the i64 scale"""
+    c = rng.random()
+    if c < 0.15:
+        i = rng.choice([0, 1, -1, 9, 10, -10, 100, 99, 12345, -12345, 10 ** 15, 10 ** 16, -(10 ** 20)])
+    elif c < 0.5:
+        i = rng.getrandbits(rng.randrange(1, 130)) * rng.choice([1, 1, -1])
+    else:
+        i = rng.getrandbits(rng.randrange(1, 40)) * 10 ** rng.choice([0, 0, 1, 3]) * rng.choice([1, 1, -1])
+    n = len(str(abs(i)))
+    c = rng.random()
+    if c < 0.3:
+        s = rng.choice(BD_SCALES)
+    elif c < 0.6:
+        s = n + rng.randrange(-3, 9)            # around the exponent threshold (more than 5 leading zeros)
+    elif c < 0.9:
+        s = rng.randrange(-25, 40)
+    else:
+        s = rng.randrange(-(1 << 63), 1 << 63)
+    if normal and -15 <= s < 0:
+        i, s = bd_norm(i, s)
+    return i, s
+
+
+def gen_bigdec_value(rng, normal=True):
+    i, s = gen_bigdec_pair(rng, normal)
+    return f"(0 z{i} z{s})"
 
 
 def seq_len(rng):
